@@ -1087,6 +1087,9 @@ def run(ctx):
     run_r11(ctx, r11)
     r12 = ctx.rule("C12-R12", "OrderedAig -> Aig spells out the positional names: input i = 2(i+1), latch i = 2(i+1+I), gate i = 2(i+1+I+L); every other field from the field of the same name", floor=12)
     run_r12(ctx, r12)
+    from . import builders
+    r13 = ctx.rule("C12-R13", "the option setters of RenumberConfig store their parameter into the field of their own name and return the configuration: all eight combinations of trim / structural_hash / const_fold are reachable and mean what they say", floor=6)
+    builders.run(ctx, r13, [AIG + "RenumberConfig"], 3)
     r6 = ctx.rule("C12-R6", "every constant fold is an identity of AND (each decision path checked over the six representative codes)", floor=5)
     run_r6(ctx, r6)
     ctx.assume("Boolean equivalence of the renumbered circuit as a whole, hash-consing and completeness of the cycle detection are value-level and NOT decided (the const-fold case analysis is decided by C12-R6)")
